@@ -116,10 +116,56 @@ def run(ctx):
                 ctx.violation("C10:probe-differs:" + (pr if pr.startswith(":") else ("local" if pr in LOCALS else "expr")),
                               "after :abort `%s` answers %s, a fresh session answers %s" % (pr, norm(x), norm(y)),
                               {"history": a_reqs, "fresh_history": b_reqs, "probe": pr, "observed": norm(x), "expected": norm(y)})
+    two_namespace_stage(ctx, exe, hist if ctx.thorough else hist[:10])
+
+
+def two_namespace_stage(ctx, exe, hist):
+    """Definitions in two files (`path` of the run request); the evaluation starts in main.gdn and stops inside a function
+    of lib.gdn; things are evaluated in the stopped context; `:abort`; the probes must answer as in a fresh session that
+    has the same definitions and toplevel variables (they are evaluated in main.gdn's namespace again)."""
+    LIB, MAIN = "/c10-two/lib.gdn", "/c10-two/main.gdn"
+    for defs, lets, failing in hist:
+        def req(src, path=None):
+            r = {"method": "run", "input": src}
+            if path:
+                r["path"] = path
+            return r
+        incontext = ["loc_outer", "1 + 1", "let tmp_ctx = 3"]
+        probes = ["main_only() + 1", ":resume", "main_only()", "lib_entry", "tmp_ctx", "loc_outer", "1 + 1"] + \
+                 ["top%d" % i for i in range(len(lets))]
+        common_defs = lambda d: [req(d, LIB), req("let lib_entry = outer", LIB), req("fun main_only() { 42 }", MAIN)] + \
+            [req(l, MAIN) for l in lets]
+        a = common_defs(defs) + [req("main_only() + lib_entry(1)", MAIN)] + [req(x) for x in incontext] + [req(":abort")] + \
+            [req(x) for x in probes]
+        b = common_defs(defs.replace("STOP", "0")) + [req(x) for x in probes]
+        ra, da, ea, _ = oracle.run_history(exe, a)
+        rb, db, eb, _ = oracle.run_history(exe, b)
+        ctx.case({"history": "two namespaces: stop in lib.gdn from main.gdn, in-context evals, :abort, probes"}, True)
+        ctx.stat("two-namespace histories")
+        if da or db:
+            ctx.violation("C10:session-died", "session died: %s" % (ea or eb)[-300:], {"requests": a})
+            continue
+        pa, pb = ra[len(a) - len(probes):], rb[len(b) - len(probes):]
+        if len(pa) != len(probes) or len(pb) != len(probes):
+            ctx.violation("C10:response-count", "expected %d probe answers, got %d / %d" % (len(probes), len(pa), len(pb)), {"requests": a})
+            continue
+        for pr, x, y in zip(probes, pa, pb):
+            if pr in ("tmp_ctx", "lib_entry"):
+                continue        # tmp_ctx was defined in the aborted context only; lib_entry prints a source position
+            if norm(x) != norm(y):
+                ctx.violation("C10:probe-differs:two-namespaces",
+                              "after :abort `%s` answers %s, a fresh session answers %s" % (pr, norm(x), norm(y)),
+                              {"requests": a, "fresh_requests": b, "probe": pr, "observed": norm(x), "expected": norm(y)})
+                break
 
 
 def replay(ctx, rp):
     exe = ctx.impl()
+    if "requests" in rp:
+        for name in ("requests", "fresh_requests"):
+            rs, died, err, rc = oracle.run_history(exe, rp.get(name) or [])
+            print(name, [norm(r) for r in rs][-10:], died)
+        return 0
     if "history" in rp:
         rs, died, err = responses(exe, rp["history"])
         for r in rs:
